@@ -146,11 +146,24 @@ MemDiscJustified(o, e) ==
     IF e.ev = "send" THEN
         LET k == <<e.conn, e.dir, e.ch>> IN
         k \notin DOMAIN o.str \/ NeedS(o, o.str[k], e.st0) + e.len > o.str[k].max
-    ELSE IF e.ev = "deliver" THEN
-        LET k == <<e.conn, e.dir, e.p.ch>>
-            incoming == IF e.p.kind = "SR" THEN e.p.pay ELSE e.p.sl.n * SLICE
-        IN k \notin DOMAIN o.str \/ e.label # "genuine" \/ NeedR(o, o.str[k]) + incoming > o.str[k].max
+    ELSE IF e.ev = "deliver" THEN TRUE    \* decided by ObsDeliver from the state BEFORE the packet was handed over (DeliverDiscJustified)
     ELSE FALSE
+
+\* What a genuine packet can legitimately add to the memory accounted to its receive channel: the messages the peer does not
+\* have yet (a duplicate of a message that is buffered or was consumed costs nothing: "however packets were ... duplicated"),
+\* the whole reservation of a sliced message whose reassembly is not open yet.  s = the stream BEFORE this delivery.
+RECURSIVE NewSmallBytes(_, _, _)
+NewSmallBytes(s, msgs, i) ==
+    IF i > Len(msgs) THEN 0
+    ELSE (IF msgs[i].mid \in s.compl THEN 0 ELSE msgs[i].len) + NewSmallBytes(s, msgs, i + 1)
+IncomingNew(s, p) ==
+    IF p.kind = "SR" THEN NewSmallBytes(s, p.msgs, 1)
+    ELSE IF p.kind = "RS" THEN (IF p.sl.mid \in s.compl \/ (\E x \in s.hSl : x[1] = p.sl.mid) THEN 0 ELSE p.sl.n * SLICE)
+    ELSE IF p.kind = "US" THEN p.sl.n * SLICE
+    ELSE p.pay
+DeliverDiscJustified(o, e) ==
+    LET k == <<e.conn, e.dir, e.p.ch>> IN
+    k \notin DOMAIN o.str \/ e.label # "genuine" \/ NeedR(o, o.str[k]) + IncomingNew(o.str[k], e.p) > o.str[k].max
 
 EpSeen(o, e) ==
     LET k == <<e.conn, e.side>> IN
@@ -349,6 +362,14 @@ ObsDeliver(o, e) ==
              \cup (IF ~(e.st1.status = e.st0.status \/ e.st1.status = "Disc" \/ e.st0.status = "Gone")
                    THEN {<<"C06", "ProcessedOrDropped">>} ELSE {})
              \cup (IF e.st1.status = "Disc" /\ e.st1.reason = "None" THEN {<<"C06", "ProcessedOrDropped">>} ELSE {})
+             \* C09: a disconnect for exhausted receive memory must be justified by what the channel legitimately holds plus what this
+             \* packet newly brings (judged on the observer state before the hand-over)
+             \* (C02 states its liveness without exception: a duplicate that ends the connection makes every message still on its
+             \* way disappear -- the same event is a violation of C02 on a ReliableUnordered stream)
+             \cup (IF Want(o, {"C09", "C02"}) /\ ek \in DOMAIN o.ep /\ o.ep[ek].status # "Disc" /\ e.st1.status = "Disc" /\ e.st1.reason = "RecvMem"
+                      /\ ~DeliverDiscJustified(o, e)
+                   THEN {<<"C09", "NoSpuriousDisconnect">>} \cup (IF k \in DOMAIN o.str /\ o.str[k].kind = "RU" THEN {<<"C02", "DupHarmless">>} ELSE {})
+                   ELSE {})
     IN EpSeen(Flag(o3, F), e)
 
 (***************************************************************************)
